@@ -53,3 +53,20 @@ package bscript
 
 //@ func bscript.(*Script).String
 //@   opt nilrecv ok
+
+// ---- push-data encoding (C13) ----
+//@ func bscript.PushDataPrefix
+//@   bytes token
+//@   opt bytes-le-defs 1
+//@   pure
+//@   fresh r0
+//@   ensures[C13.prefix_error] (= (= err nil) (<= (len data) 4294967295))
+//@   ensures[C13.prefix_shortest] (=> (= err nil) (= (bytes r0) (spec.pd (len data))))
+//@ func bscript.EncodeParts
+//@   bytes token
+//@   pure
+//@   fresh r0
+//@   ensures[C13.encode_error] (=> (forall ((k Int)) (=> (and (<= 0 k) (< k (len parts))) (<= (len (at parts k)) 4294967295))) (= err nil))
+//@   ensures[C13.encode_parts] (=> (= err nil) (= (bytes r0) (old (spec.enc_parts parts (len parts)))))
+//@   loop 0 invariant (fresh b)
+//@   loop 0 invariant (= (bytes b) (old (spec.enc_parts parts (+ rangeindex 1))))
